@@ -1246,7 +1246,10 @@ nni_ctx_open(nni_ctx **ctxp, nni_sock *sock)
 	nni_mtx_lock(&sock->s_mx);
 	if (sock->s_closing) {
 		nni_mtx_unlock(&sock->s_mx);
-		nni_ctx_rele(ctx);
+		// Close it (not merely release it): sock_shutdown may be past
+		// its loop over the contexts, and sock_close waits for the
+		// list of contexts to become empty.
+		nni_ctx_close(ctx);
 		return (NNG_ECLOSED);
 	}
 	nni_mtx_unlock(&sock->s_mx);
